@@ -395,7 +395,9 @@ def oracle(pid, case, out, _group=False):
             better = [x for x in elig if rank_tenths(x) < rank_tenths(u)]
             if better:
                 return ('outranked', 'feedback %s ranks strictly higher than the delivered %d' % ([x['id'] for x in better], u['id']))
-            earlier = [x for x in elig if rank_tenths(x) == rank_tenths(u) and x['id'] < u['id']]
+            # 'earlier' = earlier in the report's list; ids are creation order, which is the list order unless the harness reordered the list
+            pos = {x['id']: (i if out.get('_list_order') else x['id']) for i, x in enumerate(snaps)}
+            earlier = [x for x in elig if rank_tenths(x) == rank_tenths(u) and pos[x['id']] < pos[u['id']]]
             if earlier:
                 return ('tie-break', 'feedback %s has the same rank and was created before the delivered %d' % ([x['id'] for x in earlier], u['id']))
             if not s['used_title_ok']:
@@ -505,6 +507,26 @@ def correspondence(ctx):
                                                          'feedback_lists_after': out.get('n_feedback_after'),
                                                          'why': 'resolving the same report a second time gives a different %s: %s then %s'
                                                                 % (', '.join(diff), [out['simple'].get(k) for k in diff], [again.get(k) for k in diff])})
+        rev = out.get('simple_reversed')
+        if rev is not None and 'raise' not in out['simple']:
+            if 'raise' in rev:
+                ctx.violation('reversed-recording-order:raises', {'case': case, 'observed': rev, 'first_resolve': out['simple'], 'snapshots': snaps,
+                                                                    'why': 'the same feedback in the opposite order in report.feedback: resolve raised %s' % rev})
+            else:
+                outr = dict(out, simple=rev, sectional=None, active=list(reversed(out['active'])), _list_order=True)
+                v = oracle(ctx.pid, case, outr)
+                if v:
+                    ctx.violation('reversed-recording-order:' + v[0],
+                                  {'case': case, 'observed': rev, 'first_resolve': out['simple'], 'snapshots': outr['active'] + outr['ignored'],
+                                   'why': 'the same feedback in the opposite order in report.feedback (reversed in place, resolved again): %s' % v[1]})
+                # C03_score_is_independent_of_recording_order on the real resolver (additive forms, away from a rounding boundary)
+                if ctx.pid == 'C03' and not rev['is_default'] and not out['simple']['is_default'] and rounding_safe(out) \
+                        and all(score_value(x['score']) is not None for x in snaps if x.get('score') is not None) \
+                        and rev['score'] != out['simple']['score']:
+                    ctx.violation('reversed-recording-order:score-differs',
+                                  {'case': case, 'observed': rev['score'], 'first_resolve': out['simple']['score'], 'snapshots': snaps,
+                                   'why': 'the same feedback in the opposite order gets score %s instead of %s' % (rev['score'], out['simple']['score'])})
+            ctx.count('resolved-in-reversed-recording-order')
         late = out.get('simple_late')
         if late is not None and 'raise' not in out['simple']:
             case2 = dict(case, suppress=case['suppress'] + [case['late_suppress']])
